@@ -13,6 +13,8 @@
 //	[opMark,    id]                          R += [id, 0]
 //	[opTab,     id, [hash..]]                R += [id, [update counter of hash as ContractManagement.getContract
 //	                                              answers it inside this execution, -1 when there is none ..]]
+//	[opCheckCaller, id]                      R += [id, CheckWitness(System.Runtime.GetCallingScriptHash())]  (used where
+//	                                              the caller is the entry script, whose hash depends on the program)
 //
 // R is one Array shared by reference by all frames; every frame keeps it at the bottom of its evaluation
 // stack, so that it is part of the application log's stack of a FAULTed transaction as well (the driver
@@ -43,6 +45,7 @@ const (
 	opThrow
 	opMark
 	opTab
+	opCheckCaller
 )
 
 type asm struct {
@@ -131,7 +134,7 @@ func blob(mgmt util.Uint160) []byte {
 	a.jmp(opcode.JMPIFNOTL, "end")
 	a.op(opcode.LDARG1, opcode.LDLOC0, opcode.PICKITEM, opcode.STLOC1)
 	fld(opcode.PUSH0) // kind
-	kinds := []string{"k_check", "k_call", "k_calltry", "k_update", "k_destroy", "k_deploy", "k_abort", "k_throw", "k_mark", "k_tab"}
+	kinds := []string{"k_check", "k_call", "k_calltry", "k_update", "k_destroy", "k_deploy", "k_abort", "k_throw", "k_mark", "k_tab", "k_checkcaller"}
 	for k, l := range kinds {
 		a.op(opcode.DUP)
 		a.int(int64(k))
@@ -237,6 +240,14 @@ func blob(mgmt util.Uint160) []byte {
 	a.jmp(opcode.JMPL, "tab_loop")
 	a.label("tab_end")
 	a.op(opcode.LDLOC3)
+	store()
+
+	a.jmp(opcode.JMPL, "next")
+
+	a.label("k_checkcaller")
+	a.op(opcode.DROP)
+	a.syscall(interopnames.SystemRuntimeGetCallingScriptHash)
+	a.syscall(interopnames.SystemRuntimeCheckWitness)
 	store()
 
 	a.label("next")
